@@ -251,6 +251,14 @@ Proof.
   apply in_app_or in Hcv. apply in_or_app. destruct Hcv as [Hcv|Hcv]; [now left|right; now right].
 Qed.
 
+Lemma diff_go_fst post : forall pre c ms, In (c, ms) (diff_go pre post) -> In c (map fst post).
+Proof.
+  induction post as [|[c0 s0] r IH]; intros pre c ms H; cbn [diff_go] in H; [destruct H|].
+  destruct (canon_set _) as [|m0 ms0].
+  - right. exact (IH _ _ _ H).
+  - destruct H as [H|H]; [injection H as <- _; now left|right; exact (IH _ _ _ H)].
+Qed.
+
 Lemma children_diff_spec m : forall cs cd, children_diff m cs = Some cd ->
   map fst cd = cs /\ Forall (fun cv => lookup_set m (fst cv) = Some (snd cv)) cd.
 Proof.
@@ -291,15 +299,49 @@ Qed.
 Definition not_in_table (s : lstate) (nx : nat) : Prop :=
   forall f o, lookup_nat (ls_tri s) f = Some o -> o <> nx.
 
+Definition removes (cs l : list nat) : list nat := fold_left (fun l c => remove1 c l) cs l.
+
+(* a balancing node: And(child, one triangle of the table per missing feature) *)
+Definition balS (s : lstate) (an c : nat) (ms : list nat) : Prop :=
+  sg_label (ls_g s) an = Some GAnd /\
+  exists tris, sg_out (ls_g s) an = tris ++ [c] /\
+    Forall2 (fun f o => lookup_nat (ls_tri s) f = Some o) (rev (ord ms)) tris.
+
+(* what balance_or_children did, exactly *)
+Definition bstruct (s s' : lstate) (nx : nat) (children : list (nat * list nat)) : Prop :=
+  exists ans, lprov s s' ans /\ tri_grow s s' /\
+    Forall2 (fun an cm => sg_alive (ls_g s) an = false /\ balS s' an (fst cm) (snd cm)) ans children /\
+    sg_out (ls_g s') nx = rev ans ++ removes (map fst children) (sg_out (ls_g s) nx).
+
+Lemma add_literal_nodes_S at_ : forall fs s s', add_literal_nodes rc fs at_ s = Some s' ->
+  lprov s s' [] /\ tri_grow s s'.
+Proof.
+  induction fs as [|f r IH]; intros s s' H; cbn [add_literal_nodes] in H.
+  - injection H as <-. split; [apply lprov_refl|apply tri_grow_refl].
+  - destruct (add_literal_node rc f at_ s) as [s1|] eqn:E1; [|discriminate].
+    destruct (add_literal_node_S rc _ _ _ _ E1) as [P1 G1]. destruct (IH _ _ H) as [P2 G2].
+    split; [exact (lprov_trans _ _ _ [] [] P1 P2 G2)|exact (tri_grow_trans _ _ _ G1 G2)].
+Qed.
+
+Lemma removes_cons_notin cs : forall a l, ~ In a cs -> removes cs (a :: l) = a :: removes cs l.
+Proof.
+  induction cs as [|c cs IH]; intros a l Hn; [reflexivity|]. cbn [removes fold_left remove1].
+  destruct (Nat.eqb_spec a c) as [->|Hne]; [exfalso; apply Hn; now left|].
+  apply (IH a (remove1 c l)). intros Hin. apply Hn. now right.
+Qed.
+
 Lemma balance_spec nx : forall children s s',
   tables_ok P st s -> sg_label (ls_g s) nx = Some GOr -> not_in_table s nx ->
   (forall c ms f, In (c, ms) children -> In f ms -> FOK f) ->
+  (forall c ms, In (c, ms) children -> sg_alive (ls_g s) c = true) ->
   balance_or_children rc ord nx children s = Some s' ->
   tables_ok P st s' /\ ext (ls_g s) (ls_g s') [nx] /\
-  subst_rel (ls_g s') nx (sg_out (ls_g s) nx) (sg_out (ls_g s') nx).
+  subst_rel (ls_g s') nx (sg_out (ls_g s) nx) (sg_out (ls_g s') nx) /\
+  bstruct s s' nx children.
 Proof.
-  induction children as [|[child missing] r IH]; intros s s' Hok Hnx Hnt Hpos H; cbn [balance_or_children] in H.
-  - injection H as <-. split; [exact Hok|]. split; [apply ext_refl|constructor].
+  induction children as [|[child missing] r IH]; intros s s' Hok Hnx Hnt Hpos Hcal H; cbn [balance_or_children] in H.
+  - injection H as <-. split; [exact Hok|]. split; [apply ext_refl|]. split; [constructor|].
+    exists []. split; [apply lprov_refl|]. split; [apply tri_grow_refl|]. split; [constructor|reflexivity].
   - destruct (add_node rc GAnd (ls_g s)) as [an g1] eqn:Ha.
     destruct (negb (mem child (sg_out g1 nx))) eqn:Hmem; [discriminate|].
     set (s1 := with_g s (remove_edge nx child g1)) in H.
@@ -348,7 +390,7 @@ Proof.
     assert (Ht3 : tris_ok s3).
     { intros f o Hfo. rewrite Htri3, Htri2 in Hfo. cbn [s1 with_g ls_tri] in Hfo.
       apply (tri_node_ext _ _ [nx] f o He03); [|now apply Ht]. intros [E|[]]. now apply (Hnt f o). }
-    destruct (add_literal_nodes_spec rc an (ord missing) s3 s4 (conj Hc3 Ht3)) as [Hok4 [He34 [Hor34 [tris [Ho4 Htris]]]]];
+    destruct (add_literal_nodes_spec rc an (ord missing) s3 s4 (conj Hc3 Ht3)) as [Hok4 [He34 [Hor34 [tris [Ho4 [Htris Hfeat]]]]]];
       [|exact Hlan3|exact E4|].
     { apply Forall_forall. intros f Hf. apply (Hpos child missing f); [now left|now apply Hord]. }
     (* facts about s4 *)
@@ -378,12 +420,38 @@ Proof.
     { intros f o Hfo. destruct (Hor34 f o Hfo) as [H3|H3].
       - rewrite Htri3, Htri2 in H3. now apply (Hnt f o).
       - intros ->. congruence. }
-    destruct (IH s4 s' Hok4 (ext_label_some _ _ _ _ _ He04 Hnx) Hnt4) as [Hok' [He4' Hs4']]; [|exact H|].
+    destruct (IH s4 s' Hok4 (ext_label_some _ _ _ _ _ He04 Hnx) Hnt4) as [Hok' [He4' [Hs4' [ansr [Pr [Gr [Fr Or]]]]]]]; [| |exact H|].
     { intros c ms f Hin. apply (Hpos c ms f). now right. }
+    { intros c ms Hin. apply (ext_alive _ _ _ _ He04). apply (Hcal c ms). now right. }
     split; [exact Hok'|]. split; [exact (ext_trans _ _ _ _ He04 He4')|].
-    apply (subst_rel_trans _ _ _ (sg_out (ls_g s4) nx)); [|exact Hs4'].
-    apply (subst_rel_ext (ls_g s4)); [exact He4'|]. rewrite Hnx4.
-    constructor; [constructor|exact Hchild|exact Hbal].
+    split.
+    { apply (subst_rel_trans _ _ _ (sg_out (ls_g s4) nx)); [|exact Hs4'].
+      apply (subst_rel_ext (ls_g s4)); [exact He4'|]. rewrite Hnx4.
+      constructor; [constructor|exact Hchild|exact Hbal]. }
+    (* the exact description *)
+    destruct (ls_add_edge_S _ _ _ _ E2) as [L2 T2]. destruct (ls_add_edge_S _ _ _ _ E3) as [L3 T3].
+    destruct (add_literal_nodes_S an _ _ _ E4) as [P34 G34].
+    assert (P03 : lprov s s3 [an]).
+    { intros y t Hy. rewrite L3, L2 in Hy. cbn [s1 with_g ls_g] in Hy. rewrite remove_edge_label in Hy.
+      destruct (add_node_label_cases rc _ _ _ _ _ _ Ha Hy) as [[-> ->]|[_ H0]]; [|now left].
+      right. right. right. split; [reflexivity|now left]. }
+    assert (G03 : tri_grow s s3) by (apply tri_grow_eq; rewrite T3, T2; reflexivity).
+    exists (an :: ansr). split; [|split; [|split]].
+    + exact (lprov_trans _ _ _ _ _ (lprov_trans _ _ _ _ _ P03 P34 G34) Pr Gr).
+    + exact (tri_grow_trans _ _ _ (tri_grow_trans _ _ _ G03 G34) Gr).
+    + constructor.
+      * split; [exact Hand|]. cbn [fst snd]. split; [exact (ext_label_some _ _ _ _ _ He4' (ext_label_some _ _ _ _ _ He34 Hlan3))|].
+        exists tris. split.
+        -- rewrite (ex_out _ _ _ He4' an); [now rewrite Ho4, Han3| |intros [E|[]]; congruence].
+           unfold sg_alive. now rewrite (ext_label_some _ _ _ _ _ He34 Hlan3).
+        -- eapply Forall2_impl; [|exact Hfeat]. intros f o Hfo. now apply Gr.
+      * eapply Forall2_impl; [|exact Fr]. intros a cm [Ha4 Hb4]. split; [|exact Hb4].
+        change (sg_alive g a = false). destruct (sg_alive g a) eqn:E; [|reflexivity]. now rewrite (ext_alive _ _ _ _ He04 E) in Ha4.
+    + rewrite Or, Hnx4. cbn [map fst rev removes fold_left].
+      rewrite removes_cons_notin.
+      * fold (removes (map fst r) (remove1 child (sg_out g nx))). now rewrite <- app_assoc.
+      * intros Hin. apply in_map_iff in Hin. destruct Hin as [[c ms] [Ec Hin]]. cbn [fst] in Ec. subst c.
+        rewrite (Hcal an ms (or_intror Hin)) in Hand. discriminate.
 Qed.
 
 (* ---------- the body of the third traversal ---------- *)
@@ -441,10 +509,12 @@ Proof.
       rewrite <- (gr_label _ _ Hg p Hap). exact Hlp. }
     subst vn vp. rewrite diff_go_tri in H. cbn [balance_or_children] in H. injection H as <-.
     split; [exact Hok|apply grow_refl].
-  - destruct (balance_spec nx (diff_go [] cd) s s' Hok Hnx (in_table_false _ _ Etab)) as [Hok' [He Hs]]; [|exact H|].
+  - destruct (balance_spec nx (diff_go [] cd) s s' Hok Hnx (in_table_false _ _ Etab)) as [Hok' [He [Hs _]]]; [| |exact H|].
     { intros c ms f Hin Hf. destruct (diff_go_In cd [] c ms f Hin Hf) as [_ [cv [Hcv Hfv]]].
       cbn [app] in Hcv. rewrite Forall_forall in Hcd.
       exact (do_pos _ _ _ Hm (fst cv) (snd cv) f (Hcd cv Hcv) Hfv). }
+    { intros c ms Hin. apply diff_go_fst in Hin. rewrite Hfst in Hin.
+      exact (proj2 (out_alive _ _ _ (proj1 (co_inv _ _ _ (proj1 Hok))) Hin)). }
     split; [exact Hok'|]. now apply (balance_grow _ _ nx).
 Qed.
 
